@@ -15,6 +15,20 @@ OVERLAY = {
 C06_CLAUSES = ("gate-accepts-invalid-signature-list",)
 
 
+C07_CLAUSES = ("explorer-accepts-below-quorum",)
+
+
+def run_gate_for(ctx, clauses):
+    """run_gate_for_c06 with another set of owned clauses (C07: the explorer's quorum threshold)"""
+    global C06_CLAUSES
+    saved = C06_CLAUSES
+    C06_CLAUSES = clauses
+    try:
+        return run_gate_for_c06(ctx)
+    finally:
+        C06_CLAUSES = saved
+
+
 def run_gate_for_c06(ctx):
     """The verification-gate cases of the explorer harness (verifyVAA directly and through Push on fresh consumers, one message id per
     VAA), judged by drv_explorer; only the clauses in C06_CLAUSES are kept - the others are C19's business (its own check reports them)."""
